@@ -3,6 +3,7 @@ package transports
 import (
 	"errors"
 	"io"
+	"math"
 	"net"
 	"sync"
 	"time"
@@ -122,7 +123,7 @@ func (w *websocket) message() {
 // on the wire; what permessage-deflate inflates them to is bounded here.
 func (w *websocket) readMessage(read types.BufferInterface, message io.Reader) error {
 	limit := w.socket.MaxPayload
-	if limit <= 0 {
+	if limit <= 0 || limit == math.MaxInt64 {
 		_, err := read.ReadFrom(message)
 		return err
 	}
